@@ -7,8 +7,9 @@ from . import execcommon as X
 from . import bracket
 
 RULE = ("bounded-exhaustive bracket sequences: every sequence of N leaves from {prepare_all, measure_all, gate} with B "
-        "non-crossing containers from {loop 0, loop 1, loop 2, sequential block, single-branch parallel block, macro call, "
-        "subcircuit block around gates} (quick: N<=4,B<=1 and N<=3,B<=2 complete; thorough: N<=5,B<=1 and N<=4,B<=2 complete, "
+        "non-crossing containers from {loop 0/1/2 with sequential body, loop 0/1/2 with single-branch parallel body, sequential "
+        "block, single-branch parallel block, macro call, subcircuit block around gates} (quick: N<=4,B<=1 complete and every 7th "
+        "program of N<=3,B<=2; thorough: N<=5,B<=1 and N<=4,B<=2 complete, "
         "N<=7,B<=4 sampled), plus random larger programs with prepare/measure misplaced. Oracle = flat-order scan transcribed "
         "from the property statement; accepted programs also have subcircuit count and per-subcircuit state compared. "
         "non-trivial = program has at least one container and one prepare or measure; distinct = S-expression")
@@ -184,7 +185,7 @@ def shard(ctx):
     monitors.install_contracts()
     seen = {}
     # (leaves<=N, containers<=B, stride): stride 1 = complete enumeration of that space
-    spaces = [(4, 1, 1), (3, 2, 4)] if ctx.quick else [(5, 1, 1), (4, 2, 1)]
+    spaces = [(4, 1, 1), (3, 2, 7)] if ctx.quick else [(5, 1, 1), (4, 2, 1)]
     j = 0
     done_all = True
     emitted = set()
